@@ -4,7 +4,7 @@ import glob
 import os
 import re
 
-from vlib import core, mir as M, rules_order as RO, tables
+from vlib import core, mir as M, rules_order as RO, tables, ast as A
 
 LEVEL = "other"
 EXPLANATION = (
@@ -97,7 +97,33 @@ def global_state_rule(repo, res, rule="GLOBALSTATE"):
     res.check(len(found) >= 3, "CONTROL", "CONTROL:global-state", f"control: {len(found)} process-global items flagged {sorted(w for _, _, w, _ in found)}", ctl)
 
 
+def outfile_rule(repo, res, rule="OUTFILE"):
+    """`byte-identical output ... so generated scripts can be committed and diffed`: the file complgen leaves behind is what was
+    written in this run only if the destination is truncated when opened: every file opened for writing in main.rs is opened with
+    File::create, or with OpenOptions that set truncate(true) (append / plain write(true) keep the old tail)."""
+    n = 0
+    for fn in repo.fns_in("main"):
+        for c in A.walk(fn.body):
+            if c["k"] == "Call" and c["func"]["k"] == "Path" and c["func"]["path"].split("::")[-2:] in (["File", "create"], ["File", "create_new"]):
+                n += 1
+                res.ok(rule, f"{rule}:{fn.qname}:File::create", "destination opened with File::create (truncating)", f"{fn.file}:{c['l']}")
+            if c["k"] == "Call" and c["func"]["k"] == "Path" and c["func"]["path"].split("::")[-2:] in (["OpenOptions", "new"], ["File", "options"]):
+                n += 1
+                # the builder chain this call starts
+                txt = ""
+                pm = A.parent_map(fn.body)
+                cur = c
+                while id(cur) in pm and pm[id(cur)][0]["k"] in ("MethodCall", "Try"):
+                    cur = pm[id(cur)][0]
+                txt = "".join(repo.text(fn.file, cur).split())
+                ok = ".truncate(true)" in txt and ".append(true)" not in txt
+                res.check(ok, rule, f"{rule}:{fn.qname}:OpenOptions", f"{txt[:90]}" + ("" if ok else ": opened for writing without truncation -- a shorter script leaves the tail of the previous file behind"), f"{fn.file}:{c['l']}")
+    res.check(n >= 1, rule, f"{rule}:main:found", f"{n} file-opening sites for output in main.rs", "src/main.rs")
+
+
 def run(repo, res, tier):
+    from vlib import ast as A_
+    outfile_rule(repo, res)
     from vlib import rules_hasheq as HQ
 
     # lookups in a per-process seeded hash container (indexmap's default RandomState: DFAInternPool, RegexInternPool, the subset
